@@ -227,11 +227,13 @@ theorem lg_doRegister (st : St) (k : Int) (reg : St → St × Nat) (h : ∀ s, L
     · exact (h st).trans (lg_with_slots _ _)
 
 
+theorem lg_with_cancelReq (st : St) (l : List Int) : LogExt st { st with cancelReq := l } := LogExt.of_eq rfl
+
 theorem lg_doCancel (st : St) (k : Int) : LogExt st (doCancel st k) := by
   unfold doCancel
   split
   · exact (lg_emit _ _)
-  · exact lg_watchCancel _ _
+  · exact (lg_with_cancelReq _ _).trans (lg_watchCancel _ _)
 
 
 theorem lg_runAct (st : St) (act : Act) : LogExt st (runAct st act) := by
